@@ -1,3 +1,180 @@
-(* Properties/C08.v — betweenness (stub, being filled) *)
-From Coq Require Import QArith List Arith ZArith.
-From BCT Require Import Base.Mat Base.SumQ Base.ListX Model.Between.
+(* Properties/C08.v — betweenness counts exactly the shortest paths through each node and connection.
+   Only statements; every proof is `exact <lemma of Proofs/Between*.v>`.
+
+   FULL STATEMENT (kept visible; see the _partial theorems below for what is proved of it). *)
+From Coq Require Import QArith List Arith ZArith Permutation Sorted.
+From BCT Require Import Base.Mat Base.SumQ Base.ListX Model.Between
+  Proofs.BetweenAccum Proofs.BetweenReady Proofs.BetweenQueue Proofs.BetweenSpec Proofs.BetweenBin.
+Import ListNotations.
+Open Scope Q_scope.
+
+Definition bc_correct_wei : Prop := forall n G, nonneg_len n G ->
+  exists BC, betweenness_wei n G = Some BC /\ forall v, (v < n)%nat -> BC v == BC_spec n G v.
+Definition ebc_correct_wei : Prop := forall n G, nonneg_len n G ->
+  exists EBC BC, edge_betweenness_wei n G = Some (EBC, BC) /\
+    (forall v, (v < n)%nat -> BC v == BC_spec n G v) /\
+    (forall x y, (x < n)%nat -> (y < n)%nat -> EBC x y == EBC_spec n G x y).
+Definition bc_correct_bin : Prop := forall n G, binary n G ->
+  exists BC, betweenness_bin n G = Some BC /\ forall v, (v < n)%nat -> BC v == BC_spec n G v.
+Definition ebc_correct_bin : Prop := forall n G, binary n G ->
+  exists EBC BC, edge_betweenness_bin n G = Some (EBC, BC) /\
+    (forall v, (v < n)%nat -> BC v == BC_spec n G v) /\
+    (forall x y, (x < n)%nat -> (y < n)%nat -> EBC x y == EBC_spec n G x y).
+(* the property's first sentence *)
+Definition bc_correct : Prop := bc_correct_bin /\ bc_correct_wei /\ ebc_correct_bin /\ ebc_correct_wei.
+(* "the node vector returned by the edge routines equals the node routines' result" for the binary pair
+   (two different algorithms; follows from bc_correct_bin /\ ebc_correct_bin, which are tested, not proved) *)
+Definition ebc_node_vector_eq_bc_bin : Prop := forall n G, binary n G ->
+  match edge_betweenness_bin n G, betweenness_bin n G with
+  | Some (_, BC), Some BC' => forall i, (i < n)%nat -> BC i == BC' i
+  | _, _ => False end.
+
+(* ------------------------------------------------------------------------------------------ *)
+(* the specification                                                                           *)
+(* ------------------------------------------------------------------------------------------ *)
+(* the finite enumeration [spaths] holds exactly the minimum-length walks among ALL walks of any length *)
+Theorem C08_spec_enumeration_faithful : forall n G s t p, nonneg_len n G ->
+  (In p (spaths n G s t) <-> is_shortest n G s t p).
+Proof. exact spaths_spec. Qed.
+
+Theorem C08_dist_spec_correct : forall n G s t, nonneg_len n G ->
+  match dist_spec n G s t with Some d => is_dist n G s t d | None => ~ reachable n G s t end.
+Proof. exact dist_spec_correct. Qed.
+
+Theorem C08_shortest_walks_simple : forall n G s t p, nonneg_len n G -> In p (spaths n G s t) -> NoDup p.
+Proof. exact spaths_NoDup_elem. Qed.
+
+(* (4) bin_sum_identities, from the specification: on binary graphs node values sum to sum(d-1) and
+   connection values to sum(d) over reachable ordered pairs (unreachable pairs and s = t contribute 0) *)
+Theorem C08_bin_sum_BC : forall n G, binary n G ->
+  sumQ (BC_spec n G) n == sum2Q (pair_dist_minus1 n G) n.
+Proof. exact bin_sum_BC. Qed.
+Theorem C08_bin_sum_EBC : forall n G, binary n G ->
+  sum2Q (EBC_spec n G) n == sum2Q (pair_dist n G) n.
+Proof. exact bin_sum_EBC. Qed.
+
+(* ------------------------------------------------------------------------------------------ *)
+(* (1) brandes_accumulation                                                                    *)
+(* ------------------------------------------------------------------------------------------ *)
+(* For ANY predecessor matrix P, path counts NP and DAG path counts c that satisfy the first-connection
+   decomposition, one pass of the accumulation loop over an order in which every successor precedes its
+   predecessors adds to BC[w] exactly delta(w) = sum_t NP[w] c(w,t)/NP[t] and to EBC[v,w] exactly
+   sum_t [P w v] NP[v] c(w,t)/NP[t]. *)
+Theorem C08_brandes_accumulation : forall (n : nat) (P : mat bool) (NP : vec Z) (c : nat -> nat -> Q),
+  (forall v, (v < n)%nat -> c v v == 1) ->
+  (forall v t, (v < n)%nat -> (t < n)%nat -> v <> t -> c v t == sumQ (fun w => ind (P w v) * c w t) n) ->
+  (forall w v, (w < n)%nat -> (v < n)%nat -> P w v = true -> c w v == 0) ->
+  (forall w v, (w < n)%nat -> (v < n)%nat -> P w v = true -> (0 < NP w)%Z) ->
+  forall (order : list nat) (BC0 : vec Q) (EBC0 : mat Q),
+  NoDup order -> (forall x, In x order -> (x < n)%nat) -> succ_first n P order ->
+  let r := fold_left (acc_e_step n P NP) order (BC0, EBC0, zeroQ) in
+  (forall w, (w < n)%nat -> fst (fst r) w == BC0 w + (if nmem w order then delta n NP c w else 0)) /\
+  (forall v w, (v < n)%nat -> (w < n)%nat ->
+     snd (fst r) v w == EBC0 v w + (if nmem w order then delta_edge n P NP c v w else 0)).
+Proof. exact brandes_accumulation. Qed.
+
+Theorem C08_brandes_accumulation_node : forall (n : nat) (P : mat bool) (NP : vec Z) (c : nat -> nat -> Q),
+  (forall v, (v < n)%nat -> c v v == 1) ->
+  (forall v t, (v < n)%nat -> (t < n)%nat -> v <> t -> c v t == sumQ (fun w => ind (P w v) * c w t) n) ->
+  (forall w v, (w < n)%nat -> (v < n)%nat -> P w v = true -> c w v == 0) ->
+  (forall w v, (w < n)%nat -> (v < n)%nat -> P w v = true -> (0 < NP w)%Z) ->
+  forall (order : list nat) (BC0 : vec Q),
+  NoDup order -> (forall x, In x order -> (x < n)%nat) -> succ_first n P order ->
+  forall w, (w < n)%nat ->
+  fst (fold_left (acc_n_step n P NP) order (BC0, zeroQ)) w == BC0 w + (if nmem w order then delta n NP c w else 0).
+Proof. exact brandes_accumulation_node. Qed.
+
+(* such DAG path counts exist for every predecessor matrix along which a potential strictly increases *)
+Theorem C08_dag_counts_exist : forall (n : nat) (P : mat bool) (pot : nat -> Z),
+  (forall w v, (w < n)%nat -> (v < n)%nat -> P w v = true -> (pot v < pot w)%Z) ->
+  (forall v, dag_count n P pot v v == 1) /\
+  (forall v t, (v < n)%nat -> (t < n)%nat -> v <> t ->
+     dag_count n P pot v t == sumQ (fun w => ind (P w v) * dag_count n P pot w t) n) /\
+  (forall w v, (w < n)%nat -> (v < n)%nat -> P w v = true -> dag_count n P pot w v == 0).
+Proof.
+  intros n P pot H. split; [exact (dag_count_refl n P pot)|split].
+  - exact (dag_count_step n P pot H).
+  - exact (dag_count_acyc n P pot H).
+Qed.
+
+(* ------------------------------------------------------------------------------------------ *)
+(* (2) queue_slots                                                                              *)
+(* ------------------------------------------------------------------------------------------ *)
+(* weighted routines: for every source the search phase ends without error (n rounds suffice, the slice
+   Q[:q+1] has exactly the length of where(isinf(D))) and the queue is a permutation of all nodes with the
+   unreached nodes in slots 0..q, the reached ones behind them in non-increasing distance, the source last;
+   predecessor links strictly increase the distance and reached nodes have NP >= 1 *)
+Theorem C08_queue_slots_wei : forall n G u, (u < n)%nat -> nonneg_len n G ->
+  exists st, source_w n G u = Some st /\ queue_ok n u st /\
+    Permutation (to_list n (sQ st)) (seq 0 n) /\
+    (forall i, (i < n)%nat -> ((i < sqf st)%nat <-> sD st (sQ st i) = None)) /\
+    (forall i j, (sqf st <= i)%nat -> (i <= j)%nat -> (j < n)%nat -> xle (sD st (sQ st j)) (sD st (sQ st i))) /\
+    sQ st (n - 1)%nat = u.
+Proof. exact queue_slots_w_full. Qed.
+
+(* binary edge routine: same statement for the breadth-first search of edge_betweenness_bin
+   (levels instead of distances; the flag D marks the reached nodes) *)
+Theorem C08_queue_slots_bin : forall n G u, (u < n)%nat ->
+  exists st, source_b n G u = Some st /\ bqueue_ok n u st /\
+    Permutation (to_list n (sQ st)) (seq 0 n) /\
+    (forall i, (i < n)%nat -> ((i < sqf st)%nat <-> sD st (sQ st i) = None)) /\
+    sQ st (n - 1)%nat = u.
+Proof. exact queue_slots_b_full. Qed.
+
+(* ------------------------------------------------------------------------------------------ *)
+(* the routines as a whole: what is proved of bc_correct                                        *)
+(* ------------------------------------------------------------------------------------------ *)
+(* _partial: the routines never fail and return, for every node / connection, the sum over all sources of
+   the pair sums over the predecessor DAG (P, NP) built by their own search phase.  Missing for bc_correct:
+   that NP[t] = sigma(u,t) and that the P-paths are exactly the minimum-length walks (path-counting phase). *)
+Theorem C08_ebc_wei_pairsums_partial : forall n G, nonneg_len n G ->
+  exists EBC BC, edge_betweenness_wei n G = Some (EBC, BC) /\
+    (forall w, (w < n)%nat -> BC w == sumQ (fun u => dep_node n (source_w n G) u w) n) /\
+    (forall v w, (v < n)%nat -> (w < n)%nat -> EBC v w == sumQ (fun u => dep_edge n (source_w n G) u v w) n).
+Proof. exact ebc_wei_pairsums. Qed.
+Theorem C08_bc_wei_pairsums_partial : forall n G, nonneg_len n G ->
+  exists BC, betweenness_wei n G = Some BC /\
+    (forall w, (w < n)%nat -> BC w == sumQ (fun u => dep_node n (source_w n G) u w) n).
+Proof. exact bc_wei_pairsums. Qed.
+Theorem C08_ebc_bin_pairsums_partial : forall n G,
+  exists EBC BC, edge_betweenness_bin n G = Some (EBC, BC) /\
+    (forall w, (w < n)%nat -> BC w == sumQ (fun u => dep_node n (source_b n G) u w) n) /\
+    (forall v w, (v < n)%nat -> (w < n)%nat -> EBC v w == sumQ (fun u => dep_edge n (source_b n G) u v w) n).
+Proof. exact ebc_bin_pairsums. Qed.
+
+(* (3) the node vector of edge_betweenness_wei IS the result of betweenness_wei (identical values, and the two
+   fail together) *)
+Theorem C08_ebc_node_vector_eq_bc_wei : forall n G,
+  match edge_betweenness_wei n G, betweenness_wei n G with
+  | Some (_, BC), Some BC' => forall i, BC i = BC' i
+  | None, None => True
+  | _, _ => False
+  end.
+Proof. exact ebc_node_vector_eq_bc_wei. Qed.
+
+(* ------------------------------------------------------------------------------------------ *)
+(* non-vacuity: a diamond with a tie (two equal-length routes 0->1->3, 0->2->3) plus an unreachable node *)
+(* ------------------------------------------------------------------------------------------ *)
+Example C08_nonvacuous_input : nonneg_len 5 (of_rows 0%Z diamond) /\ binary 5 (of_rows 0%Z [[0;1];[1;0]]%Z).
+Proof. exact nonvacuous_input. Qed.
+Example C08_nonvacuous_output :
+  run_bc_wei diamond = Some [0; 1#2; 1#2; 0; 0] /\
+  snd (fst (run_spec diamond)) = [0; 1#2; 1#2; 0; 0] /\
+  option_map snd (run_ebc_wei diamond) = Some [0; 1#2; 1#2; 0; 0] /\
+  option_map (fun r => match r with (q, qf, _, _, _) => (q, qf) end) (run_search true diamond 0) = Some ([4; 3; 2; 1; 0], 1)%nat.
+Proof. exact nonvacuous_output. Qed.
+
+Print Assumptions C08_spec_enumeration_faithful.
+Print Assumptions C08_dist_spec_correct.
+Print Assumptions C08_shortest_walks_simple.
+Print Assumptions C08_bin_sum_BC.
+Print Assumptions C08_bin_sum_EBC.
+Print Assumptions C08_brandes_accumulation.
+Print Assumptions C08_brandes_accumulation_node.
+Print Assumptions C08_dag_counts_exist.
+Print Assumptions C08_queue_slots_wei.
+Print Assumptions C08_queue_slots_bin.
+Print Assumptions C08_ebc_wei_pairsums_partial.
+Print Assumptions C08_bc_wei_pairsums_partial.
+Print Assumptions C08_ebc_bin_pairsums_partial.
+Print Assumptions C08_ebc_node_vector_eq_bc_wei.
